@@ -1,6 +1,6 @@
 From RsdnsModel Require Import Base GenReader Cursor Names Labels Header Tracker RData Reader Script Iter.
-From RsdnsModel.Spec Require Import WireName.
-From RsdnsModel.Proofs Require Import CursorSafe LabelsSound Views RandAccess Flavours IterAgree NameRefEq.
+From RsdnsModel.Spec Require Import WireName LinearPass.
+From RsdnsModel.Proofs Require Import CursorSafe LabelsSound Views RandAccess Flavours IterAgree NameRefEq ReaderRefine QuestionsIter.
 From RsdnsModel.Properties Require Import C08.
 Open Scope N_scope.
 Check (C08_name_types_agree : forall msg c, read_name msg Heap c = read_name msg Inline c).
@@ -42,4 +42,8 @@ Check (C08_nameref_eq_is_decoded_eq : forall msg nk c1 c2 t1 t2 c1' c2',
 Check (C08_label_iteration_is_expansion : forall msg c ls,
   cwf msg c -> expands (vis msg c) None 0 (pos c) ls ->
   Forall (fun l => label_ok (snd l) = true) ls -> labels_drain msg c = Ok (ls, None)).
-Print Assumptions C08_name_types_agree. Print Assumptions C08_read_implies_skip. Print Assumptions C08_random_access_view. Print Assumptions C08_header_flavours_agree. Print Assumptions C08_iterator_item_is_reader_item. Print Assumptions C08_iterator_skip_is_reader_skip. Print Assumptions C08_nameref_eq_is_decoded_eq. Print Assumptions C08_label_iteration_is_expansion.
+Check (C08_questions_iterator : forall msg nq an ns ar qs rs e1 e2 h,
+  parsed msg nq an ns ar qs rs e1 e2 -> lenN qs = nq -> h_qd h = nq ->
+  Forall (fun it => a_fits255 it = true) qs ->
+  iter_questions msg h = (map (qobs msg) qs, None)).
+Print Assumptions C08_name_types_agree. Print Assumptions C08_read_implies_skip. Print Assumptions C08_random_access_view. Print Assumptions C08_header_flavours_agree. Print Assumptions C08_iterator_item_is_reader_item. Print Assumptions C08_iterator_skip_is_reader_skip. Print Assumptions C08_nameref_eq_is_decoded_eq. Print Assumptions C08_label_iteration_is_expansion. Print Assumptions C08_questions_iterator.
